@@ -1,7 +1,7 @@
 """C10 — staged and ramp profiles are the configured piecewise-linear shapes."""
 from ..core import ints, hx
 ID = "C10"
-PROPS = ["F1Verif.Props.C10", "F1Verif.Props.FactsC10", "F1Verif.Props.RefineC10", "F1Verif.Props.RefineC10S", "F1Verif.Props.RefineC10Q", "F1Verif.Props.RefineC10A"]
+PROPS = ["F1Verif.Props.C10", "F1Verif.Props.FactsC10", "F1Verif.Props.RefineC10", "F1Verif.Props.RefineC10S", "F1Verif.Props.RefineC10Q", "F1Verif.Props.RefineC10A", "F1Verif.Props.RefineC14B"]
 RULE = ("engine A on CalculateStagedRate / CalculateRampRate (distribution none, jitter 0) evaluated on synthetic "
         "timestamps: random stage lists (ascending, descending, constant, zero-length stages in every position, large "
         "targets and long durations), explicit and implicit start times, non-decreasing query sequences including every "
